@@ -33,7 +33,7 @@ def Ptr.size : Ptr → Nat
   | .tru => 1
   | .fls => 1
   | .lit _ _ => 1
-  | .bdd _ _ _ lo hi => 1 + lo.size + hi.size
+  | .bdd _ _ _ lo hi => 3 + lo.size + hi.size
   | .dec _ _ es => 1 + sizeElems es
 def sizeElems : List (Ptr × Ptr) → Nat
   | [] => 0
@@ -228,5 +228,825 @@ theorem strictSorted_ext : ∀ {l1 l2 : List Elem}, StrictSorted l1 → StrictSo
       rcases List.mem_cons.1 ((h e).2 (List.mem_cons_of_mem _ he)) with e' | h'
       · exact absurd e' (hne2 he)
       · exact h'
+
+
+/-! ## vtree: variables under a node, laminarity -/
+
+def VTree.leftVars (t : VTree) (i : Nat) : List Nat :=
+  match t.sub? 0 i with
+  | some (.node l _) => l.leaves
+  | _ => []
+def VTree.rightVars (t : VTree) (i : Nat) : List Nat :=
+  match t.sub? 0 i with
+  | some (.node _ r) => r.leaves
+  | _ => []
+def VTree.varsAt (t : VTree) (i : Nat) : List Nat :=
+  match t.sub? 0 i with
+  | some s => s.leaves
+  | none => []
+
+theorem VTree.sub?_leaves {t : VTree} {off i : Nat} {s : VTree} (h : t.sub? off i = some s) :
+    ∀ v ∈ s.leaves, v ∈ t.leaves := by
+  induction t generalizing off with
+  | leaf w =>
+    simp only [VTree.sub?] at h
+    split at h
+    · cases h; exact fun v hv => hv
+    · cases h
+  | node l r ihl ihr =>
+    simp only [VTree.sub?] at h
+    split at h
+    · intro v hv; simp only [VTree.leaves, List.mem_append]; exact Or.inl (ihl h v hv)
+    · split at h
+      · cases h; exact fun v hv => hv
+      · intro v hv; simp only [VTree.leaves, List.mem_append]; exact Or.inr (ihr h v hv)
+
+theorem VTree.sub?_nodup {t : VTree} {off i : Nat} {s : VTree} (hn : t.leaves.Nodup)
+    (h : t.sub? off i = some s) : s.leaves.Nodup := by
+  induction t generalizing off with
+  | leaf w =>
+    simp only [VTree.sub?] at h
+    split at h
+    · cases h; exact hn
+    · cases h
+  | node l r ihl ihr =>
+    simp only [VTree.leaves, List.nodup_append] at hn
+    simp only [VTree.sub?] at h
+    split at h
+    · exact ihl hn.1 h
+    · split at h
+      · cases h; simp only [VTree.leaves, List.nodup_append]; exact hn
+      · exact ihr hn.2.1 h
+
+theorem nodup_append_disj {l r : List Nat} (h : (l ++ r).Nodup) {v : Nat} (h1 : v ∈ l)
+    (h2 : v ∈ r) : False := by
+  rw [List.nodup_append] at h
+  exact h.2.2 v h1 v h2 rfl
+
+/-- two internal vtree nodes, each of which splits a pair of variables that lies under the other,
+coincide -/
+theorem VTree.laminar {t : VTree} {off i j : Nat} {li ri lj rj : VTree} (hn : t.leaves.Nodup)
+    (hi : t.sub? off i = some (.node li ri)) (hj : t.sub? off j = some (.node lj rj))
+    {u v u' v' : Nat} (hu : u ∈ li.leaves) (hv : v ∈ ri.leaves)
+    (huj : u ∈ (VTree.node lj rj).leaves) (hvj : v ∈ (VTree.node lj rj).leaves)
+    (hu' : u' ∈ lj.leaves) (hv' : v' ∈ rj.leaves)
+    (hui : u' ∈ (VTree.node li ri).leaves) (hvi : v' ∈ (VTree.node li ri).leaves) : i = j := by
+  induction t generalizing off with
+  | leaf w =>
+    simp only [VTree.sub?] at hi
+    split at hi <;> cases hi
+  | node l r ihl ihr =>
+    have hn' := hn
+    simp only [VTree.leaves, List.nodup_append] at hn
+    by_cases h1 : i < off + l.size
+    · rw [VTree.sub?_node_lt h1] at hi
+      by_cases h2 : j < off + l.size
+      · rw [VTree.sub?_node_lt h2] at hj
+        exact ihl hn.1 hi hj
+      · by_cases h3 : j = off + l.size
+        · exfalso
+          rw [h3, VTree.sub?_node_eq] at hj
+          cases hj
+          exact nodup_append_disj hn' (VTree.sub?_leaves hi _ hvi) hv'
+        · exfalso
+          rw [VTree.sub?_node_gt (by omega)] at hj
+          have a1 := VTree.sub?_leaves hi u (by simp [VTree.leaves, hu])
+          exact nodup_append_disj hn' a1 (VTree.sub?_leaves hj _ huj)
+    · by_cases h1' : i = off + l.size
+      · rw [h1', VTree.sub?_node_eq] at hi
+        by_cases h2 : j < off + l.size
+        · exfalso
+          rw [VTree.sub?_node_lt h2] at hj
+          cases hi
+          exact nodup_append_disj hn' (VTree.sub?_leaves hj _ hvj) hv
+        · by_cases h3 : j = off + l.size
+          · omega
+          · exfalso
+            rw [VTree.sub?_node_gt (by omega)] at hj
+            cases hi
+            exact nodup_append_disj hn' hu (VTree.sub?_leaves hj _ huj)
+      · rw [VTree.sub?_node_gt (by omega)] at hi
+        by_cases h2 : j < off + l.size
+        · exfalso
+          rw [VTree.sub?_node_lt h2] at hj
+          have a1 := VTree.sub?_leaves hi u (by simp [VTree.leaves, hu])
+          exact nodup_append_disj hn' (VTree.sub?_leaves hj _ huj) a1
+        · by_cases h3 : j = off + l.size
+          · exfalso
+            rw [h3, VTree.sub?_node_eq] at hj
+            cases hj
+            exact nodup_append_disj hn' hu' (VTree.sub?_leaves hi _ hui)
+          · rw [VTree.sub?_node_gt (by omega)] at hj
+            exact ihr hn.2.1 hi hj
+
+theorem VTree.left_right_disj {t : VTree} {i v : Nat} (hn : t.leaves.Nodup)
+    (h1 : v ∈ t.leftVars i) (h2 : v ∈ t.rightVars i) : False := by
+  simp only [VTree.leftVars, VTree.rightVars] at h1 h2
+  cases h : t.sub? 0 i with
+  | none => simp [h] at h1
+  | some s =>
+    cases s with
+    | leaf w => simp [h] at h1
+    | node l r =>
+      simp only [h] at h1 h2
+      have := VTree.sub?_nodup hn h
+      exact nodup_append_disj (by simpa [VTree.leaves] using this) h1 h2
+
+/-! ## the structural predicate -/
+
+/-- `unique_or` / `unique_bdd` keep the complement off these -/
+def Ptr.regular (s : Ptr) : Bool := !(s.isNeg || s.isFalse || s.isNegVar)
+
+mutual
+/-- compressed, trimmed, normalised, in pointer normal form -/
+def WFs (vt : VTree) : Ptr → Prop
+  | .tru => True
+  | .fls => True
+  | .lit v _ => v ∈ vt.leaves
+  | .bdd _ l i lo hi =>
+    Internal vt i ∧ l ∈ vt.leftVars i ∧ WFs vt lo ∧ WFs vt hi ∧
+    (∀ v ∈ lo.vars, v ∈ vt.rightVars i) ∧ (∀ v ∈ hi.vars, v ∈ vt.rightVars i) ∧
+    lo ≠ hi ∧ ¬(hi = .tru ∧ lo = .fls) ∧ ¬(hi = .fls ∧ lo = .tru) ∧ hi.regular = true
+  | .dec _ i es =>
+    Internal vt i ∧ Partition es ∧ WFsElems vt i es ∧ (es.map (·.2)).Nodup ∧ StrictSorted es ∧
+    2 ≤ es.length ∧ asBdd? es = none ∧
+    (∀ p q, es ≠ [(p, .tru), (q, .fls)] ∧ es ≠ [(p, .fls), (q, .tru)]) ∧
+    (∀ e, es.head? = some e → e.2.regular = true)
+def WFsElems (vt : VTree) (i : Nat) : List (Ptr × Ptr) → Prop
+  | [] => True
+  | (p, s) :: r =>
+    (WFs vt p ∧ WFs vt s ∧ p ≠ .fls ∧ (∀ v ∈ p.vars, v ∈ vt.leftVars i) ∧
+      (∀ v ∈ s.vars, v ∈ vt.rightVars i)) ∧ WFsElems vt i r
+end
+
+/-- per-element reading -/
+def ElemOKs (vt : VTree) (i : Nat) (e : Elem) : Prop :=
+  WFs vt e.1 ∧ WFs vt e.2 ∧ e.1 ≠ .fls ∧ (∀ v ∈ e.1.vars, v ∈ vt.leftVars i) ∧
+    (∀ v ∈ e.2.vars, v ∈ vt.rightVars i)
+
+theorem wfsElems_iff {vt : VTree} {i : Nat} {es : List Elem} :
+    WFsElems vt i es ↔ ∀ e ∈ es, ElemOKs vt i e := by
+  induction es with
+  | nil => simp [WFsElems]
+  | cons e l ih =>
+    obtain ⟨p, s⟩ := e
+    simp only [WFsElems, ih, List.mem_cons, forall_eq_or_imp, ElemOKs]
+
+theorem WFs_tru (vt) : WFs vt .tru := by simp [WFs]
+theorem WFs_fls (vt) : WFs vt .fls := by simp [WFs]
+
+theorem WFs_neg {vt} {p : Ptr} (h : WFs vt p) : WFs vt p.neg := by
+  cases p <;> first | exact h | (simp only [Ptr.neg, WFs] at h ⊢; exact h)
+
+theorem regular_neg {s : Ptr} (h : s.regular = true) : s.neg.regular = false := by
+  cases s with
+  | tru => simp [Ptr.neg, Ptr.regular, Ptr.isFalse]
+  | fls => simp [Ptr.regular, Ptr.isFalse] at h
+  | lit v p => cases p <;> simp_all [Ptr.neg, Ptr.regular, Ptr.isNegVar, Ptr.isNeg, Ptr.isFalse]
+  | bdd c l i lo hi => cases c <;> simp_all [Ptr.neg, Ptr.regular, Ptr.isNegVar, Ptr.isNeg, Ptr.isFalse]
+  | dec c i es => cases c <;> simp_all [Ptr.neg, Ptr.regular, Ptr.isNegVar, Ptr.isNeg, Ptr.isFalse]
+
+theorem neg_inj {p q : Ptr} (h : p.neg = q.neg) : p = q := by
+  have := congrArg Ptr.neg h; simpa using this
+
+
+/-! ## compressed partitions of a function w.r.t. a variable split are unique -/
+
+theorem exists_sel {a : Assign} {es : List Elem} (h : 1 ≤ cnt a es) :
+    ∃ e ∈ es, e.1.eval a = true := by
+  induction es with
+  | nil => simp at h
+  | cons x l ih =>
+    rw [cnt_cons] at h
+    cases hx : x.1.eval a
+    · simp only [hx] at h
+      obtain ⟨e, he, hp⟩ := ih (by simpa using h)
+      exact ⟨e, List.mem_cons_of_mem _ he, hp⟩
+    · exact ⟨x, List.mem_cons_self .., hx⟩
+
+theorem sel_unique {a : Assign} {es : List Elem} (h : cnt a es ≤ 1) {e1 e2 : Elem}
+    (h1 : e1 ∈ es) (h2 : e2 ∈ es) (p1 : e1.1.eval a = true) (p2 : e2.1.eval a = true) :
+    e1 = e2 := by
+  induction es with
+  | nil => cases h1
+  | cons x l ih =>
+    rw [cnt_cons] at h
+    rcases List.mem_cons.1 h1 with rfl | h1'
+    · rcases List.mem_cons.1 h2 with rfl | h2'
+      · rfl
+      · have := cnt_pos_of_mem h2' p2
+        simp only [p1, if_true] at h; omega
+    · rcases List.mem_cons.1 h2 with rfl | h2'
+      · have := cnt_pos_of_mem h1' p1
+        simp only [p2, if_true] at h; omega
+      · exact ih (by omega) h1' h2'
+
+/-- semantic reading of "compressed `(L, R)`-partition" -/
+structure SemCP (L R : List Nat) (es : List Elem) : Prop where
+  part : Partition es
+  sat : ∀ e ∈ es, ∃ a, e.1.eval a = true
+  pdep : ∀ e ∈ es, ∀ a a' : Assign, (∀ v ∈ L, a v = a' v) → e.1.eval a = e.1.eval a'
+  sdep : ∀ e ∈ es, ∀ a a' : Assign, (∀ v ∈ R, a v = a' v) → e.2.eval a = e.2.eval a'
+  distinct : ∀ e1 ∈ es, ∀ e2 ∈ es, (∀ a, e1.2.eval a = e2.2.eval a) → e1 = e2
+
+section unique
+variable {L R : List Nat} {es es' : List Elem}
+
+theorem semCP_subs_agree (hd : ∀ v, v ∈ L → v ∈ R → False) (h1 : SemCP L R es)
+    (h2 : SemCP L R es') (heq : ∀ a, evalElems a es = evalElems a es') {a : Assign} {e e' : Elem}
+    (he : e ∈ es) (he' : e' ∈ es') (hp : e.1.eval a = true) (hp' : e'.1.eval a = true) :
+    ∀ β, e.2.eval β = e'.2.eval β := by
+  intro β
+  have hL : ∀ v ∈ L, (mix L a β) v = a v := fun v hv => mix_in hv
+  have hR : ∀ v ∈ R, (mix L a β) v = β v := fun v hv => mix_out (fun hl => hd v hl hv)
+  have e1 : e.1.eval (mix L a β) = true := by rw [h1.pdep e he _ _ hL]; exact hp
+  have e2 : e'.1.eval (mix L a β) = true := by rw [h2.pdep e' he' _ _ hL]; exact hp'
+  have := heq (mix L a β)
+  rw [evalElems_of_mem (h1.part _) he e1, evalElems_of_mem (h2.part _) he' e2,
+    h1.sdep e he _ _ hR, h2.sdep e' he' _ _ hR] at this
+  exact this
+
+/-- **uniqueness of compressed partitions**: two compressed `(L, R)`-partitions of the same
+function consist of the same (prime function, sub function) pairs -/
+theorem partition_unique (hd : ∀ v, v ∈ L → v ∈ R → False) (h1 : SemCP L R es)
+    (h2 : SemCP L R es') (heq : ∀ a, evalElems a es = evalElems a es') :
+    ∀ e ∈ es, ∃ e' ∈ es', (∀ a, e.1.eval a = e'.1.eval a) ∧ (∀ a, e.2.eval a = e'.2.eval a) := by
+  intro e he
+  obtain ⟨α, hα⟩ := h1.sat e he
+  obtain ⟨e', he', hα'⟩ := exists_sel (a := α) (es := es') (by rw [h2.part α]; exact Nat.le_refl 1)
+  have hst := semCP_subs_agree hd h1 h2 heq he he' hα hα'
+  refine ⟨e', he', fun a => ?_, hst⟩
+  cases hpa : e.1.eval a
+  · cases hqa : e'.1.eval a
+    · rfl
+    · exfalso
+      obtain ⟨e2, he2, hp2⟩ := exists_sel (a := a) (es := es) (by rw [h1.part a]; exact Nat.le_refl 1)
+      have h2t := semCP_subs_agree hd h1 h2 heq he2 he' hp2 hqa
+      have : e2 = e := h1.distinct e2 he2 e he (fun b => by rw [h2t b, hst b])
+      rw [this, hpa] at hp2; cases hp2
+  · obtain ⟨e2', he2', hp2'⟩ := exists_sel (a := a) (es := es') (by rw [h2.part a]; exact Nat.le_refl 1)
+    have hst2 := semCP_subs_agree hd h1 h2 heq he he2' hpa hp2'
+    have : e2' = e' := h2.distinct e2' he2' e' he' (fun b => by rw [← hst2 b, hst b])
+    rw [← this]; exact hp2'.symm
+
+end unique
+
+
+/-! ## uniform view of binary and decision nodes -/
+
+/-- what a well formed node (binary or decision) with complement flag `c`, vtree index `i` and raw
+elements `es` provides -/
+structure NodeFacts (vt : VTree) (n : Ptr) (c : Bool) (i : Nat) (es : List Elem) : Prop where
+  eval : ∀ a, n.eval a = xor c (evalElems a es)
+  internal : Internal vt i
+  part : Partition es
+  ok : ∀ e ∈ es, ElemOKs vt i e
+  nodup : (es.map (·.2)).Nodup
+  len : 2 ≤ es.length
+  untrim : ¬ ∀ e ∈ es, e.2 = .tru ∨ e.2 = .fls
+  size : sizeElems es < n.size
+  vars : ∀ v ∈ n.vars, v ∈ vt.leftVars i ∨ v ∈ vt.rightVars i
+
+theorem nodeFacts_bdd {vt : VTree} {c l i lo hi} (h : WFs vt (.bdd c l i lo hi)) :
+    NodeFacts vt (.bdd c l i lo hi) c i [(.lit l true, hi), (.lit l false, lo)] := by
+  obtain ⟨hint, hl, wlo, whi, vlo, vhi, hne, ht1, ht2, hreg⟩ := h
+  have hlv : l ∈ vt.leaves := by
+    simp only [VTree.leftVars] at hl
+    obtain ⟨l', r', hs⟩ := hint
+    simp only [hs] at hl
+    exact VTree.sub?_leaves hs l (by simp [VTree.leaves, hl])
+  refine ⟨fun a => ?_, hint, fun a => ?_, ?_, ?_, by simp, ?_, ?_, ?_⟩
+  · simp only [eval_bdd, evalElems_cons, evalElems_nil, eval_lit]; cases a l <;> simp
+  · simp only [cnt_cons, cnt_nil, eval_lit]; cases a l <;> simp
+  · intro e he
+    simp only [List.mem_cons, List.not_mem_nil, or_false] at he
+    rcases he with rfl | rfl
+    · exact ⟨hlv, whi, by simp, by simpa [Ptr.vars] using hl, vhi⟩
+    · exact ⟨hlv, wlo, by simp, by simpa [Ptr.vars] using hl, vlo⟩
+  · simp only [List.map_cons, List.map_nil, List.nodup_cons, List.mem_singleton,
+      List.not_mem_nil, not_false_eq_true, List.nodup_nil, and_true]
+    exact fun e => hne e.symm
+  · intro hall
+    have h1 := hall (.lit l true, hi) (by simp)
+    have h2 := hall (.lit l false, lo) (by simp)
+    simp only at h1 h2
+    rcases h1 with h1 | h1 <;> rcases h2 with h2 | h2
+    · exact hne (h2.trans h1.symm)
+    · exact ht1 ⟨h1, h2⟩
+    · exact ht2 ⟨h1, h2⟩
+    · exact hne (h2.trans h1.symm)
+  · simp only [sizeElems, Ptr.size]; omega
+  · intro v hv
+    simp only [Ptr.vars, List.mem_cons, List.mem_append] at hv
+    rcases hv with rfl | hv | hv
+    · exact Or.inl hl
+    · exact Or.inr (vlo v hv)
+    · exact Or.inr (vhi v hv)
+
+theorem nodup_two_const {es : List Elem} (hn : (es.map (·.2)).Nodup) (hl : 2 ≤ es.length)
+    (hall : ∀ e ∈ es, e.2 = .tru ∨ e.2 = .fls) :
+    ∃ p q, es = [(p, .tru), (q, .fls)] ∨ es = [(p, .fls), (q, .tru)] := by
+  match es, hl with
+  | [e1, e2], _ =>
+    obtain ⟨p, s⟩ := e1
+    obtain ⟨q, t⟩ := e2
+    have h1 := hall (p, s) (by simp)
+    have h2 := hall (q, t) (by simp)
+    simp only [List.map_cons, List.map_nil, List.nodup_cons, List.mem_singleton,
+      List.not_mem_nil, not_false_eq_true, List.nodup_nil, and_true] at hn
+    simp only at h1 h2
+    refine ⟨p, q, ?_⟩
+    rcases h1 with rfl | rfl <;> rcases h2 with rfl | rfl
+    · exact absurd rfl hn
+    · exact Or.inl rfl
+    · exact Or.inr rfl
+    · exact absurd rfl hn
+  | e1 :: e2 :: e3 :: rest, _ =>
+    exfalso
+    have h1 := hall e1 (by simp)
+    have h2 := hall e2 (by simp)
+    have h3 := hall e3 (by simp)
+    simp only [List.map_cons, List.nodup_cons, List.mem_cons, not_or] at hn
+    obtain ⟨⟨n12, n13, _⟩, ⟨n23, _⟩, _⟩ := hn
+    rcases h1 with h1 | h1 <;> rcases h2 with h2 | h2 <;> rcases h3 with h3 | h3 <;>
+      simp_all
+
+theorem nodeFacts_dec {vt : VTree} {c i es} (h : WFs vt (.dec c i es)) :
+    NodeFacts vt (.dec c i es) c i es := by
+  obtain ⟨hint, hpart, hok, hnd, _, hlen, _, htrim, _⟩ := h
+  rw [wfsElems_iff] at hok
+  refine ⟨fun a => by simp [eval_dec], hint, hpart, hok, hnd, hlen, ?_, ?_, ?_⟩
+  · intro hall
+    obtain ⟨p, q, h | h⟩ := nodup_two_const hnd hlen hall
+    · exact (htrim p q).1 h
+    · exact (htrim p q).2 h
+  · simp [Ptr.size]
+  · intro v hv
+    simp only [Ptr.vars, mem_varsElems] at hv
+    obtain ⟨e, he, hv | hv⟩ := hv
+    · exact Or.inl ((hok e he).2.2.2.1 v hv)
+    · exact Or.inr ((hok e he).2.2.2.2 v hv)
+
+theorem size_two_mem {e1 e2 : Elem} {es : List Elem} (h1 : e1 ∈ es) (h2 : e2 ∈ es) (hne : e1 ≠ e2) :
+    e1.1.size + e1.2.size + (e2.1.size + e2.2.size) ≤ sizeElems es := by
+  induction es with
+  | nil => cases h1
+  | cons x l ih =>
+    obtain ⟨p, s⟩ := x
+    simp only [sizeElems]
+    rcases List.mem_cons.1 h1 with rfl | h1'
+    · rcases List.mem_cons.1 h2 with rfl | h2'
+      · exact absurd rfl hne
+      · have := size_lt_of_mem h2'; simp only at this ⊢; omega
+    · rcases List.mem_cons.1 h2 with rfl | h2'
+      · have := size_lt_of_mem h1'; simp only at this ⊢; omega
+      · have := ih h1' h2'; omega
+
+theorem sub_eq_of_nodup {es : List Elem} (hn : (es.map (·.2)).Nodup) {e1 e2 : Elem}
+    (h1 : e1 ∈ es) (h2 : e2 ∈ es) (h : e1.2 = e2.2) : e1 = e2 := by
+  induction es with
+  | nil => cases h1
+  | cons x l ih =>
+    simp only [List.map_cons, List.nodup_cons] at hn
+    rcases List.mem_cons.1 h1 with rfl | h1'
+    · rcases List.mem_cons.1 h2 with rfl | h2'
+      · rfl
+      · exact absurd (h ▸ List.mem_map_of_mem (f := (·.2)) h2') hn.1
+    · rcases List.mem_cons.1 h2 with rfl | h2'
+      · exact absurd (h ▸ List.mem_map_of_mem (f := (·.2)) h1') hn.1
+      · exact ih hn.2 h1' h2'
+
+/-! ## canonicity -/
+
+/-- canonicity for all pairs of total size at most `n` -/
+def CanonUpTo (vt : VTree) (n : Nat) : Prop :=
+  ∀ a b : Ptr, a.size + b.size ≤ n → WFs vt a → WFs vt b →
+    (∀ asg, a.eval asg = b.eval asg) → a = b
+
+section canon
+variable {vt : VTree} (hnd : vt.leaves.Nodup) {n : Nat} (IH : CanonUpTo vt n)
+include hnd IH
+
+omit hnd in
+theorem semCP_of_node {x : Ptr} {c : Bool} {i : Nat} {es : List Elem}
+    (hf : NodeFacts vt x c i es) (hsz : sizeElems es + 1 ≤ n) :
+    SemCP (vt.leftVars i) (vt.rightVars i) es := by
+  refine ⟨hf.part, ?_, ?_, ?_, ?_⟩
+  · intro e he
+    apply Classical.byContradiction
+    intro hno
+    have hF : ∀ a, e.1.eval a = Ptr.fls.eval a := by
+      intro a
+      cases h : e.1.eval a
+      · simp
+      · exact absurd ⟨a, h⟩ hno
+    have := IH e.1 .fls (by have := size_lt_of_mem he; simp only [Ptr.size]; omega)
+      (hf.ok e he).1 (WFs_fls vt) hF
+    exact (hf.ok e he).2.2.1 this
+  · intro e he a a' h
+    exact eval_congr e.1 (fun v hv => h v ((hf.ok e he).2.2.2.1 v hv))
+  · intro e he a a' h
+    exact eval_congr e.2 (fun v hv => h v ((hf.ok e he).2.2.2.2 v hv))
+  · intro e1 h1 e2 h2 heq
+    apply Classical.byContradiction
+    intro hne
+    have hs := size_two_mem h1 h2 hne
+    have := IH e1.2 e2.2 (by omega) (hf.ok e1 h1).2.1 (hf.ok e2 h2).2.1 heq
+    exact hne (sub_eq_of_nodup hf.nodup h1 h2 this)
+
+omit hnd IH in
+theorem semCP_negSubs {L R : List Nat} {es : List Elem} (h : SemCP L R es) :
+    SemCP L R (negSubs es) := by
+  have hm : ∀ e ∈ negSubs es, ∃ e0 ∈ es, e = (e0.1, e0.2.neg) := by
+    intro e he
+    simp only [negSubs, List.mem_map] at he
+    obtain ⟨e0, h0, rfl⟩ := he
+    exact ⟨e0, h0, rfl⟩
+  refine ⟨fun a => by rw [cnt_negSubs]; exact h.part a, ?_, ?_, ?_, ?_⟩
+  · intro e he; obtain ⟨e0, h0, rfl⟩ := hm e he; exact h.sat e0 h0
+  · intro e he a a' hh; obtain ⟨e0, h0, rfl⟩ := hm e he; exact h.pdep e0 h0 a a' hh
+  · intro e he a a' hh; obtain ⟨e0, h0, rfl⟩ := hm e he
+    simp only [eval_neg]; rw [h.sdep e0 h0 a a' hh]
+  · intro e1 h1 e2 h2 heq
+    obtain ⟨a1, ha1, rfl⟩ := hm e1 h1
+    obtain ⟨a2, ha2, rfl⟩ := hm e2 h2
+    have : a1 = a2 := h.distinct a1 ha1 a2 ha2 (fun a => by
+      have := heq a; simp only [eval_neg] at this
+      cases h1 : a1.2.eval a <;> cases h2 : a2.2.eval a <;> simp_all)
+    rw [this]
+
+/-- a well formed node essentially depends on a variable of its left and of its right child -/
+theorem node_essDep {x : Ptr} {c : Bool} {i : Nat} {es : List Elem}
+    (hf : NodeFacts vt x c i es) (hsz : sizeElems es + 1 ≤ n) :
+    (∃ u ∈ vt.leftVars i, EssDep (fun a => x.eval a) u) ∧
+    (∃ v ∈ vt.rightVars i, EssDep (fun a => x.eval a) v) := by
+  have hcp := semCP_of_node IH hf hsz
+  have hdisj : ∀ v, v ∈ vt.leftVars i → v ∈ vt.rightVars i → False :=
+    fun v h1 h2 => VTree.left_right_disj hnd h1 h2
+  constructor
+  · -- two elements with different subs
+    match es, hf.len with
+    | e1 :: e2 :: rest, _ =>
+      have m1 : e1 ∈ e1 :: e2 :: rest := by simp
+      have m2 : e2 ∈ e1 :: e2 :: rest := by simp
+      have hne : e1 ≠ e2 := by
+        intro e
+        have := hf.nodup
+        simp only [List.map_cons, List.nodup_cons, List.mem_cons, not_or] at this
+        exact this.1.1 (by rw [e])
+      have hsem : ¬ ∀ a, e1.2.eval a = e2.2.eval a := fun h => hne (hcp.distinct e1 m1 e2 m2 h)
+      obtain ⟨β, hβ⟩ : ∃ β, e1.2.eval β ≠ e2.2.eval β := by
+        apply Classical.byContradiction
+        intro hno
+        exact hsem fun a => Classical.byContradiction fun h => hno ⟨a, h⟩
+      obtain ⟨α1, h1⟩ := hcp.sat e1 m1
+      obtain ⟨α2, h2⟩ := hcp.sat e2 m2
+      let L := vt.leftVars i
+      have ev : ∀ (e : Elem) (α : Assign), e ∈ e1 :: e2 :: rest → e.1.eval α = true →
+          evalElems (mix L α β) (e1 :: e2 :: rest) = e.2.eval β := by
+        intro e α he hα
+        have hp : e.1.eval (mix L α β) = true := by
+          rw [hcp.pdep e he _ α (fun v hv => mix_in hv)]; exact hα
+        rw [evalElems_of_mem (hcp.part _) he hp]
+        exact hcp.sdep e he _ _ (fun v hv => mix_out (fun hl => hdisj v hl hv))
+      have hdiff : (fun a => x.eval a) (mix L α1 β) ≠ (fun a => x.eval a) (mix L α2 β) := by
+        simp only [hf.eval, ev e1 α1 m1 h1, ev e2 α2 m2 h2]
+        intro h; apply hβ
+        cases c <;> simpa using h
+      exact essDep_of_diff _ L _ _ (fun v hv => by simp [mix, hv]) hdiff
+  · -- a non-constant sub
+    have : ∃ e ∈ es, e.2 ≠ .tru ∧ e.2 ≠ .fls := by
+      apply Classical.byContradiction
+      intro hno
+      apply hf.untrim
+      intro e he
+      apply Classical.byContradiction
+      intro h
+      simp only [not_or] at h
+      exact hno ⟨e, he, h⟩
+    obtain ⟨e, he, hT, hF⟩ := this
+    have hsz' := size_lt_of_mem he
+    have nT : ¬ ∀ a, e.2.eval a = Ptr.tru.eval a := fun h =>
+      hT (IH e.2 .tru (by simp only [Ptr.size]; omega) (hf.ok e he).2.1 (WFs_tru vt) h)
+    have nF : ¬ ∀ a, e.2.eval a = Ptr.fls.eval a := fun h =>
+      hF (IH e.2 .fls (by simp only [Ptr.size]; omega) (hf.ok e he).2.1 (WFs_fls vt) h)
+    obtain ⟨β, hβ⟩ : ∃ β, e.2.eval β = false := by
+      apply Classical.byContradiction
+      intro hno
+      apply nT; intro a
+      cases h : e.2.eval a
+      · exact absurd ⟨a, h⟩ hno
+      · simp
+    obtain ⟨β', hβ'⟩ : ∃ β, e.2.eval β = true := by
+      apply Classical.byContradiction
+      intro hno
+      apply nF; intro a
+      cases h : e.2.eval a
+      · simp
+      · exact absurd ⟨a, h⟩ hno
+    obtain ⟨α, hα⟩ := hcp.sat e he
+    let Rv := vt.rightVars i
+    have ev : ∀ γ : Assign, evalElems (mix Rv γ α) es = e.2.eval γ := by
+      intro γ
+      have hp : e.1.eval (mix Rv γ α) = true := by
+        rw [hcp.pdep e he _ α (fun v hv => mix_out (fun hr => hdisj v hv hr))]; exact hα
+      rw [evalElems_of_mem (hcp.part _) he hp]
+      exact hcp.sdep e he _ _ (fun v hv => mix_in hv)
+    have hdiff : (fun a => x.eval a) (mix Rv β α) ≠ (fun a => x.eval a) (mix Rv β' α) := by
+      simp only [hf.eval, ev, hβ, hβ']
+      cases c <;> simp
+    exact essDep_of_diff _ Rv _ _ (fun v hv => by simp [mix, hv]) hdiff
+
+omit hnd IH in
+theorem essDep_congr {f g : BoolFn} (h : ∀ a, f a = g a) {v : Nat} (hd : EssDep f v) : EssDep g v := by
+  obtain ⟨a, ha⟩ := hd
+  exact ⟨a, by rw [← h, ← h]; exact ha⟩
+
+/-- a node is not equivalent to a constant or a literal -/
+theorem node_not_simple {x y : Ptr} {c : Bool} {i : Nat} {es : List Elem}
+    (hf : NodeFacts vt x c i es) (hsz : sizeElems es + 1 ≤ n)
+    (hy : ∀ v ∈ y.vars, ∀ w ∈ y.vars, v = w) (heq : ∀ a, x.eval a = y.eval a) : False := by
+  obtain ⟨⟨u, hu, du⟩, ⟨v, hv, dv⟩⟩ := node_essDep hnd IH hf hsz
+  have hu' := essDep_vars (p := y) (essDep_congr heq du)
+  have hv' := essDep_vars (p := y) (essDep_congr heq dv)
+  have := hy u hu' v hv'
+  subst this
+  exact VTree.left_right_disj hnd hu hv
+
+omit hnd in
+/-- semantic equality of element lists gives syntactic inclusion, by `partition_unique` and the
+induction hypothesis -/
+theorem members_sub {L R : List Nat} {es es' : List Elem} (hd : ∀ v, v ∈ L → v ∈ R → False)
+    (h1 : SemCP L R es) (h2 : SemCP L R es') (heq : ∀ a, evalElems a es = evalElems a es')
+    (w1 : ∀ e ∈ es, WFs vt e.1 ∧ WFs vt e.2) (w2 : ∀ e ∈ es', WFs vt e.1 ∧ WFs vt e.2)
+    (hsz : ∀ e ∈ es, ∀ e' ∈ es', e.1.size + e'.1.size ≤ n ∧ e.2.size + e'.2.size ≤ n) :
+    ∀ e ∈ es, e ∈ es' := by
+  intro e he
+  obtain ⟨e', he', hp, hs⟩ := partition_unique hd h1 h2 heq e he
+  have e1 := IH e.1 e'.1 (hsz e he e' he').1 (w1 e he).1 (w2 e' he').1 hp
+  have e2 := IH e.2 e'.2 (hsz e he e' he').2 (w1 e he).2 (w2 e' he').2 hs
+  have : e = e' := Prod.ext e1 e2
+  rw [this]; exact he'
+
+omit hnd IH in
+theorem mem_negSubs {e : Elem} {es : List Elem} :
+    e ∈ negSubs es ↔ ∃ e0 ∈ es, e = (e0.1, e0.2.neg) := by
+  simp only [negSubs, List.mem_map]
+  constructor
+  · rintro ⟨e0, h0, rfl⟩; exact ⟨e0, h0, rfl⟩
+  · rintro ⟨e0, h0, rfl⟩; exact ⟨e0, h0, rfl⟩
+
+/-- two equivalent well formed nodes sit at the same vtree node and have the same elements (up
+to pushing a complement into the subs) -/
+theorem node_node {a b : Ptr} {c c' : Bool} {i j : Nat} {es es' : List Elem}
+    (hfa : NodeFacts vt a c i es) (hfb : NodeFacts vt b c' j es')
+    (hsz : a.size + b.size ≤ n + 1) (heq : ∀ asg, a.eval asg = b.eval asg) :
+    i = j ∧ ∀ e, e ∈ es ↔ e ∈ (if c = c' then es' else negSubs es') := by
+  have hsa : sizeElems es + 1 ≤ n := by have := hfa.size; have := size_pos b; omega
+  have hsb : sizeElems es' + 1 ≤ n := by have := hfb.size; have := size_pos a; omega
+  have hij : i = j := by
+    obtain ⟨⟨u, hu, du⟩, ⟨v, hv, dv⟩⟩ := node_essDep hnd IH hfa hsa
+    obtain ⟨⟨u', hu', du'⟩, ⟨v', hv', dv'⟩⟩ := node_essDep hnd IH hfb hsb
+    have hub := hfb.vars u (essDep_vars (p := b) (essDep_congr heq du))
+    have hvb := hfb.vars v (essDep_vars (p := b) (essDep_congr heq dv))
+    have hua := hfa.vars u' (essDep_vars (p := a) (essDep_congr (fun x => (heq x).symm) du'))
+    have hva := hfa.vars v' (essDep_vars (p := a) (essDep_congr (fun x => (heq x).symm) dv'))
+    obtain ⟨li, ri, hi⟩ := hfa.internal
+    obtain ⟨lj, rj, hj⟩ := hfb.internal
+    simp only [VTree.leftVars, VTree.rightVars, hi, hj] at hu hv hu' hv' hub hvb hua hva
+    exact VTree.laminar hnd hi hj hu hv (by simpa [VTree.leaves] using hub)
+      (by simpa [VTree.leaves] using hvb) hu' hv' (by simpa [VTree.leaves] using hua)
+      (by simpa [VTree.leaves] using hva)
+  subst hij
+  refine ⟨rfl, ?_⟩
+  have hdisj : ∀ v, v ∈ vt.leftVars i → v ∈ vt.rightVars i → False :=
+    fun v h1 h2 => VTree.left_right_disj hnd h1 h2
+  have cpa := semCP_of_node IH hfa hsa
+  have cpb := semCP_of_node IH hfb hsb
+  have wa : ∀ e ∈ es, WFs vt e.1 ∧ WFs vt e.2 := fun e he => ⟨(hfa.ok e he).1, (hfa.ok e he).2.1⟩
+  have wb : ∀ e ∈ es', WFs vt e.1 ∧ WFs vt e.2 := fun e he => ⟨(hfb.ok e he).1, (hfb.ok e he).2.1⟩
+  have hsize : ∀ e ∈ es, ∀ e' ∈ es', e.1.size + e'.1.size ≤ n ∧ e.2.size + e'.2.size ≤ n := by
+    intro e he e' he'
+    have h1 := size_lt_of_mem he
+    have h2 := size_lt_of_mem he'
+    have := hfa.size; have := hfb.size
+    constructor <;> omega
+  by_cases hc : c = c'
+  · subst hc
+    simp only [if_true]
+    have hev : ∀ asg, evalElems asg es = evalElems asg es' := by
+      intro asg
+      have := heq asg
+      rw [hfa.eval, hfb.eval] at this
+      cases c <;> simpa using this
+    intro e
+    exact ⟨members_sub IH hdisj cpa cpb hev wa wb hsize e,
+      members_sub IH hdisj cpb cpa (fun x => (hev x).symm) wb wa
+        (fun e he e' he' => by have := hsize e' he' e he; omega) e⟩
+  · simp only [hc, if_false]
+    have cpb' := semCP_negSubs cpb
+    have hev : ∀ asg, evalElems asg es = evalElems asg (negSubs es') := by
+      intro asg
+      have := heq asg
+      rw [hfa.eval, hfb.eval] at this
+      rw [evalElems_negSubs (hfb.part asg)]
+      cases c <;> cases c' <;> simp_all
+    have wb' : ∀ e ∈ negSubs es', WFs vt e.1 ∧ WFs vt e.2 := by
+      intro e he
+      obtain ⟨e0, h0, rfl⟩ := mem_negSubs.1 he
+      exact ⟨(wb e0 h0).1, WFs_neg (wb e0 h0).2⟩
+    have hsize' : ∀ e ∈ es, ∀ e' ∈ negSubs es',
+        e.1.size + e'.1.size ≤ n ∧ e.2.size + e'.2.size ≤ n := by
+      intro e he e' he'
+      obtain ⟨e0, h0, rfl⟩ := mem_negSubs.1 he'
+      simp only [size_neg]
+      exact hsize e he e0 h0
+    intro e
+    exact ⟨members_sub IH hdisj cpa cpb' hev wa wb' hsize' e,
+      members_sub IH hdisj cpb' cpa (fun x => (hev x).symm) wb' wa
+        (fun e he e' he' => by have := hsize' e' he' e he; omega) e⟩
+
+omit hnd IH in
+theorem negSubs_primes (es : List Elem) : (negSubs es).map (·.1) = es.map (·.1) := by
+  simp [negSubs, List.map_map, Function.comp_def]
+
+omit hnd IH in
+/-- a decision node in normal form never has the elements of a binary node -/
+theorem bdd_dec_false {l : Nat} {hi lo : Ptr} {es' es'' : List Elem}
+    (hpr : es''.map (·.1) = es'.map (·.1))
+    (hmem : ∀ e, e ∈ [((Ptr.lit l true), hi), ((Ptr.lit l false), lo)] ↔ e ∈ es'')
+    (hsort : StrictSorted es') (hlen : 2 ≤ es'.length) (hshape : asBdd? es' = none) : False := by
+  have hprime : ∀ e ∈ es', e.1 = .lit l true ∨ e.1 = .lit l false := by
+    intro e he
+    have : e.1 ∈ es''.map (·.1) := by rw [hpr]; exact List.mem_map_of_mem he
+    obtain ⟨e2, he2, h2⟩ := List.mem_map.1 this
+    have := (hmem e2).2 he2
+    simp only [List.mem_cons, List.not_mem_nil, or_false] at this
+    rcases this with rfl | rfl
+    · exact Or.inl h2.symm
+    · exact Or.inr h2.symm
+  match es', hlen with
+  | [e1, e2], _ =>
+    obtain ⟨p1, s1⟩ := e1
+    obtain ⟨p2, s2⟩ := e2
+    have h1 := hprime (p1, s1) (by simp)
+    have h2 := hprime (p2, s2) (by simp)
+    simp only at h1 h2
+    rcases h1 with rfl | rfl <;> rcases h2 with rfl | rfl <;> simp [asBdd?] at hshape
+  | e1 :: e2 :: e3 :: rest, _ =>
+    have h1 := hprime e1 (by simp)
+    have h2 := hprime e2 (by simp)
+    have h3 := hprime e3 (by simp)
+    simp only [StrictSorted, List.pairwise_cons, List.mem_cons, forall_eq_or_imp] at hsort
+    obtain ⟨⟨s12, s13, _⟩, ⟨s23, _⟩, _⟩ := hsort
+    have n12 : e1.1 ≠ e2.1 := fun e => Ptr.cmp_lt_irrefl e2.1 (e ▸ s12)
+    have n13 : e1.1 ≠ e3.1 := fun e => Ptr.cmp_lt_irrefl e3.1 (e ▸ s13)
+    have n23 : e2.1 ≠ e3.1 := fun e => Ptr.cmp_lt_irrefl e3.1 (e ▸ s23)
+    rcases h1 with h1 | h1 <;> rcases h2 with h2 | h2 <;> rcases h3 with h3 | h3 <;>
+      simp_all
+
+/-- the induction step of canonicity -/
+theorem canon_step : CanonUpTo vt (n + 1) := by
+  intro a b hsz wa wb heq
+  have simple_vars1 : ∀ (v : Nat) (p : Bool), ∀ x ∈ (Ptr.lit v p).vars, ∀ y ∈ (Ptr.lit v p).vars, x = y := by
+    intro v p x hx y hy; simp only [Ptr.vars, List.mem_singleton] at hx hy; rw [hx, hy]
+  have hsz' : ∀ {x y : Ptr} {c i es}, NodeFacts vt x c i es → x.size + y.size ≤ n + 1 →
+      sizeElems es + 1 ≤ n := by
+    intro x y c i es hf h; have := hf.size; have := size_pos y; omega
+  -- node against a simple pointer
+  have nodeL : ∀ {x y : Ptr} {c i es}, NodeFacts vt x c i es → x.size + y.size ≤ n + 1 →
+      (∀ v ∈ y.vars, ∀ w ∈ y.vars, v = w) → (∀ asg, x.eval asg = y.eval asg) → False :=
+    fun hf h hy he => node_not_simple hnd IH hf (hsz' hf h) hy he
+  have novars : ∀ y : Ptr, y.vars = [] → ∀ v ∈ y.vars, ∀ w ∈ y.vars, v = w := by
+    intro y hy v hv; rw [hy] at hv; cases hv
+  cases a with
+  | tru =>
+    cases b with
+    | tru => rfl
+    | fls => have := heq (fun _ => true); simp at this
+    | lit w q => have := heq (fun _ => !q); cases q <;> simp [eval_lit] at this
+    | bdd c' l' j lo' hi' =>
+      exact (nodeL (nodeFacts_bdd wb) (by omega) (novars _ rfl) (fun x => (heq x).symm)).elim
+    | dec c' j es' =>
+      exact (nodeL (nodeFacts_dec wb) (by omega) (novars _ rfl) (fun x => (heq x).symm)).elim
+  | fls =>
+    cases b with
+    | tru => have := heq (fun _ => true); simp at this
+    | fls => rfl
+    | lit w q => have := heq (fun _ => q); cases q <;> simp [eval_lit] at this
+    | bdd c' l' j lo' hi' =>
+      exact (nodeL (nodeFacts_bdd wb) (by omega) (novars _ rfl) (fun x => (heq x).symm)).elim
+    | dec c' j es' =>
+      exact (nodeL (nodeFacts_dec wb) (by omega) (novars _ rfl) (fun x => (heq x).symm)).elim
+  | lit v p =>
+    cases b with
+    | tru => have := heq (fun _ => !p); cases p <;> simp [eval_lit] at this
+    | fls => have := heq (fun _ => p); cases p <;> simp [eval_lit] at this
+    | lit w q =>
+      by_cases hvw : v = w
+      · subst hvw
+        have := heq (fun _ => true)
+        cases p <;> cases q <;> simp [eval_lit] at this ⊢
+      · exfalso
+        have := heq (fun x => if x = v then p else !q)
+        have hwv : ¬ w = v := fun e => hvw e.symm
+        cases p <;> cases q <;> simp [eval_lit, hwv] at this
+    | bdd c' l' j lo' hi' =>
+      exact (nodeL (nodeFacts_bdd wb) (by omega) (simple_vars1 v p) (fun x => (heq x).symm)).elim
+    | dec c' j es' =>
+      exact (nodeL (nodeFacts_dec wb) (by omega) (simple_vars1 v p) (fun x => (heq x).symm)).elim
+  | bdd c l i lo hi =>
+    have hfa := nodeFacts_bdd wa
+    cases b with
+    | tru => exact (nodeL hfa hsz (novars _ rfl) heq).elim
+    | fls => exact (nodeL hfa hsz (novars _ rfl) heq).elim
+    | lit w q => exact (nodeL hfa hsz (simple_vars1 w q) heq).elim
+    | bdd c' l' j lo' hi' =>
+      have hfb := nodeFacts_bdd wb
+      obtain ⟨hij, hmem⟩ := node_node hnd IH hfa hfb hsz heq
+      subst hij
+      have rega := wa.2.2.2.2.2.2.2.2.2
+      have regb := wb.2.2.2.2.2.2.2.2.2
+      by_cases hc : c = c'
+      · subst hc
+        simp only [if_true] at hmem
+        have h1 := (hmem (.lit l true, hi)).1 (by simp)
+        have h2 := (hmem (.lit l false, lo)).1 (by simp)
+        simp only [List.mem_cons, Prod.mk.injEq, Ptr.lit.injEq, List.not_mem_nil, or_false] at h1 h2
+        simp only [Bool.true_eq_false, and_false, false_and, or_false, Bool.false_eq_true,
+          false_or, and_true] at h1 h2
+        rw [h1.1, h1.2, h2.2]
+      · exfalso
+        simp only [hc, if_false] at hmem
+        have h1 := (hmem (.lit l true, hi)).1 (by simp)
+        simp only [negSubs, List.map_cons, List.map_nil, List.mem_cons, Prod.mk.injEq,
+          Ptr.lit.injEq, List.not_mem_nil, or_false] at h1
+        simp only [Bool.true_eq_false, and_false, false_and, or_false, and_true] at h1
+        have := regular_neg regb
+        rw [← h1.2, rega] at this; cases this
+    | dec c' j es' =>
+      exfalso
+      have hfb := nodeFacts_dec wb
+      obtain ⟨hij, hmem⟩ := node_node hnd IH hfa hfb hsz heq
+      obtain ⟨_, _, _, _, hsort, hlen, hshape, _, _⟩ := wb
+      refine bdd_dec_false (es'' := if c = c' then es' else negSubs es') ?_ hmem hsort hlen hshape
+      split
+      · rfl
+      · exact negSubs_primes es'
+  | dec c i es =>
+    have hfa := nodeFacts_dec wa
+    cases b with
+    | tru => exact (nodeL hfa hsz (novars _ rfl) heq).elim
+    | fls => exact (nodeL hfa hsz (novars _ rfl) heq).elim
+    | lit w q => exact (nodeL hfa hsz (simple_vars1 w q) heq).elim
+    | bdd c' l' j lo' hi' =>
+      exfalso
+      have hfb := nodeFacts_bdd wb
+      obtain ⟨hij, hmem⟩ := node_node hnd IH hfb hfa (by omega) (fun x => (heq x).symm)
+      obtain ⟨_, _, _, _, hsort, hlen, hshape, _, _⟩ := wa
+      refine bdd_dec_false (es'' := if c' = c then es else negSubs es) ?_ hmem hsort hlen hshape
+      split
+      · rfl
+      · exact negSubs_primes es
+    | dec c' j es' =>
+      have hfb := nodeFacts_dec wb
+      obtain ⟨hij, hmem⟩ := node_node hnd IH hfa hfb hsz heq
+      subst hij
+      obtain ⟨_, _, _, _, hsorta, hlena, _, _, hrega⟩ := wa
+      obtain ⟨_, _, _, _, hsortb, hlenb, _, _, hregb⟩ := wb
+      by_cases hc : c = c'
+      · subst hc
+        simp only [if_true] at hmem
+        rw [strictSorted_ext hsorta hsortb hmem]
+      · exfalso
+        simp only [hc, if_false] at hmem
+        have hes := strictSorted_ext hsorta (strictSorted_negSubs hsortb) hmem
+        match es', hlenb with
+        | e0 :: rest, _ =>
+          have r1 := hregb e0 rfl
+          have r2 := hrega (e0.1, e0.2.neg) (by rw [hes]; rfl)
+          have := regular_neg r1
+          simp only at r2
+          rw [r2] at this; cases this
+
+end canon
+
+/-- **canonicity**: on a vtree with distinct leaf labels, two well formed (compressed, trimmed,
+normalised) SDDs denote the same function iff they are the same pointer -/
+theorem sdd_canon {vt : VTree} (hnd : vt.leaves.Nodup) {a b : Ptr} (wa : WFs vt a) (wb : WFs vt b) :
+    (∀ asg, a.eval asg = b.eval asg) ↔ a = b := by
+  constructor
+  · intro heq
+    have all : ∀ n, CanonUpTo vt n := by
+      intro n
+      induction n with
+      | zero =>
+        intro x y h; have := size_pos x; have := size_pos y; omega
+      | succ n ih => exact canon_step hnd ih
+    exact all (a.size + b.size) a b (Nat.le_refl _) wa wb heq
+  · rintro rfl asg; rfl
+
+#print axioms partition_unique
+#print axioms sdd_canon
 
 end Sdd
